@@ -277,6 +277,9 @@ def order_rule(prog, rep, rule="ORDER", windowless=False):
             inner = rv.args[0]
         if isinstance(inner, ast.ListComp) and len(inner.generators) == 1 and not inner.generators[0].ifs:
             inner = inner.generators[0].iter  # an element-wise rebuild keeps order and length
+        ret_slice = False
+        if isinstance(inner, ast.Subscript) and isinstance(inner.slice, ast.Slice) and inner.slice.lower is None and inner.slice.step is None and inner.slice.upper is not None and isinstance(inner.value, ast.Name):
+            inner, ret_slice = inner.value, True  # the limiting slice is taken in the return itself: after every step
         if isinstance(inner, ast.Name):
             var = inner.id
         d, steps = (None, None)
@@ -299,7 +302,9 @@ def order_rule(prog, rep, rule="ORDER", windowless=False):
                 for nm in {x.id for st, _ in steps for x in ast.walk(st.value) if isinstance(x, ast.Name)}:
                     slices += [d_ for d_ in local_defs(fi, nm) if isinstance(d_, ast.Assign) and _has_limit_slice(d_.value)]
             others = [st for st, _ in steps if st not in slices]
-            if not slices:
+            if ret_slice and not slices:
+                rep.ok("LIMIT", fi.short, "slice placement", "the limit slice is taken in the return statement, after sorting and after both window filters", fi.loc(ret[0]))
+            elif not slices:
                 rep.undecided("LIMIT", fi.short, "slice", "no limiting slice", fi.loc())
             for sl in slices:
                 sn = g.node_of(sl)
@@ -456,6 +461,8 @@ def last_rule(prog, rep, rule="LAST", stream_assumption=False):
                 inner = ret[0].value.args[0] if isinstance(ret[0].value, ast.Call) and len(ret[0].value.args) == 1 else ret[0].value
                 if isinstance(inner, ast.ListComp) and len(inner.generators) == 1 and not inner.generators[0].ifs:
                     inner = inner.generators[0].iter  # an element-wise rebuild keeps order and length
+                if isinstance(inner, ast.Subscript) and isinstance(inner.slice, ast.Slice) and inner.slice.lower is None and inner.slice.step is None and inner.slice.upper is not None and isinstance(inner.value, ast.Name):
+                    inner = inner.value  # the limiting slice taken in the return
                 if isinstance(inner, ast.Name):
                     gd, _ = flow_list(gfi, inner.id, skip_window_steps=True)
             if gd is None:
